@@ -82,7 +82,7 @@ class Scatterer(HoloPyObject):
         translated : Scatterer
             A copy of this scatterer translated to a new location
         """
-        if coord2 is None and len(ensure_array(coord1) == 3):
+        if coord2 is None and len(ensure_array(coord1)) == 3:
             # entered translation vector
             trans_coords = ensure_array(coord1)
         elif coord2 is not None and coord3 is not None:
